@@ -856,6 +856,46 @@ func headerHelpers(c *core.Ctx) {
 			}
 			var got []string
 			problem := ""
+			// for _, field := range [...]interface{}{&h.A, &h.B, &h.C} { binary.Read(buf, order, field) }: the table's
+			// elements, one read each, in order
+			tables := map[types.Object][]ast.Expr{}
+			literalOf := func(e ast.Expr) *ast.CompositeLit {
+				switch x := ast.Unparen(e).(type) {
+				case *ast.CompositeLit:
+					return x
+				case *ast.Ident:
+					obj := pkg.TypesInfo.Uses[x]
+					var lit *ast.CompositeLit
+					n := 0
+					ast.Inspect(decl.Body, func(m ast.Node) bool {
+						if as, isAs := m.(*ast.AssignStmt); isAs {
+							for i, l := range as.Lhs {
+								if id, isID := l.(*ast.Ident); isID && (pkg.TypesInfo.Defs[id] == obj || pkg.TypesInfo.Uses[id] == obj) && i < len(as.Rhs) {
+									n++
+									lit, _ = ast.Unparen(as.Rhs[i]).(*ast.CompositeLit)
+								}
+							}
+						}
+						return true
+					})
+					if n == 1 {
+						return lit
+					}
+				}
+				return nil
+			}
+			ast.Inspect(decl.Body, func(n ast.Node) bool {
+				if rs, isR := n.(*ast.RangeStmt); isR && rs.Value != nil {
+					if id, isID := rs.Value.(*ast.Ident); isID {
+						if lit := literalOf(rs.X); lit != nil {
+							if _, isArr := pkg.TypesInfo.TypeOf(lit).Underlying().(*types.Array); isArr {
+								tables[pkg.TypesInfo.Defs[id]] = lit.Elts
+							}
+						}
+					}
+				}
+				return true
+			})
 			ast.Inspect(decl.Body, func(n ast.Node) bool {
 				call, ok := n.(*ast.CallExpr)
 				if !ok || len(call.Args) != 3 {
@@ -868,22 +908,30 @@ func headerHelpers(c *core.Ctx) {
 				if wire.OrderOf(c.Prog, pkg.TypesInfo, call.Args[1]) != "big" {
 					problem = "a header word is not transferred big-endian at " + c.Prog.Pos(call.Pos())
 				}
-				arg := ast.Unparen(call.Args[2])
-				if u, isU := arg.(*ast.UnaryExpr); isU && u.Op == token.AND {
-					arg = ast.Unparen(u.X)
-				}
-				sel, isSel := arg.(*ast.SelectorExpr)
-				wd := 0
-				if isSel {
-					if bt, isB := pkg.TypesInfo.TypeOf(sel).Underlying().(*types.Basic); isB {
-						wd = map[types.BasicKind]int{types.Uint8: 8, types.Uint16: 16, types.Uint32: 32, types.Uint64: 64, types.Int8: 8, types.Int16: 16, types.Int32: 32, types.Int64: 64}[bt.Kind()]
+				args := []ast.Expr{call.Args[2]}
+				if id, isID := ast.Unparen(call.Args[2]).(*ast.Ident); isID {
+					if elts, isTab := tables[pkg.TypesInfo.Uses[id]]; isTab {
+						args = elts
 					}
 				}
-				if !isSel || wd == 0 {
-					problem = "binary." + h.prim + " of something other than a fixed-width header field at " + c.Prog.Pos(call.Pos())
-					return true
+				for _, a := range args {
+					arg := ast.Unparen(a)
+					if u, isU := arg.(*ast.UnaryExpr); isU && u.Op == token.AND {
+						arg = ast.Unparen(u.X)
+					}
+					sel, isSel := arg.(*ast.SelectorExpr)
+					wd := 0
+					if isSel {
+						if bt, isB := pkg.TypesInfo.TypeOf(sel).Underlying().(*types.Basic); isB {
+							wd = map[types.BasicKind]int{types.Uint8: 8, types.Uint16: 16, types.Uint32: 32, types.Uint64: 64, types.Int8: 8, types.Int16: 16, types.Int32: 32, types.Int64: 64}[bt.Kind()]
+						}
+					}
+					if !isSel || wd == 0 {
+						problem = "binary." + h.prim + " of something other than a fixed-width header field at " + c.Prog.Pos(call.Pos())
+						return true
+					}
+					got = append(got, fmt.Sprintf("U%d(%s)", wd, sel.Sel.Name))
 				}
-				got = append(got, fmt.Sprintf("U%d(%s)", wd, sel.Sel.Name))
 				return true
 			})
 			fpos := c.Prog.Pos(fn.Pos())
